@@ -73,7 +73,7 @@ def _replay_chunk(args):
         vec = json.loads(line)
         fd = N.check_vector(vec, base + j)
         for k, v in fd.stats.items():
-            stats[k] = stats.get(k, 0) + v
+            stats[k] = max(stats.get(k, 0), v) if k.startswith('prec_max') else stats.get(k, 0) + v
         for c, m in fd.unsup:
             u = unsup.setdefault(c, [0, m])
             u[0] += 1
@@ -99,7 +99,7 @@ def replay_all(ctx, r, totals):
         for cnt, viol, unsup, stats, nontriv in pool.imap_unordered(_replay_chunk, jobs()):
             n += cnt
             for k, v in stats.items():
-                totals[k] = totals.get(k, 0) + v
+                totals[k] = max(totals.get(k, 0), v) if k.startswith('prec_max') else totals.get(k, 0) + v
             ctx.count(stats.get('calls', 0))
             for c, (m, msg) in unsup.items():
                 for _ in range(m):
@@ -168,7 +168,8 @@ def record_and_validate(ctx, n_inputs, totals):
                                   f'cov_from_{est} does not return one matrix per element: got {note[2]}',
                                   {'vector': vec, 'method': method})
                 elif kind == 'raises':
-                    ctx.violation(f'C14/a/cov_from_{est}/{fc}/{dc}/raises/{note[2].split(":")[0]}',
+                    ctx.violation(f'C14/a/cov_from_{est}/{fc}/{dc}/raises/{note[2].split(":")[0]}'
+                                  + ('/int-dtype' if len(note) > 3 and str(note[3]).startswith('int') else ''),
                                   f'cov_from_{est} raises on an admissible input: {note[2]}', {'vector': vec, 'method': method})
                 elif kind == 'nonfinite':
                     k = note[2]
@@ -243,8 +244,8 @@ def run(ctx):
                 '(cov, prec) in one flavour; non-trivial = distinct vector whose cross-product is not all zero')
     ctx.assumptions = ['numpy linear algebra (eigvalsh, cond, matmul) is trusted for the relational clauses',
                        'shrinkage intensity is not pinned by the property: relations only',
-                       'Datasets with integer dtype raise UFuncTypeError in the dataset based estimators: '
-                       'recorded as unsupported, not demanded by the property',
+                       'integer (int64, int32) and float32 measurements must give the result of the float64 copy '
+                       '(exact oracle) without modifying the input; an exception is a violation',
                        'degenerate inputs (all residuals zero; a zero-variance channel for shrinkage_diag; '
                        'singular covariance for the precision clause) are excluded and counted',
                        'natural dof >= 1 (observations > conditions) for every block when no dof is passed; '
@@ -308,7 +309,8 @@ def run(ctx):
     # vacuity guards
     for k, floor in [('exact_compared', 1000), ('shrink_checked', 1000), ('lambda_interior', 100), ('pd_checked', 100),
                      ('prec_checked', 1000), ('d_pairs_compared', 100), ('prec_skipped_singular', 1),
-                     ('scaled_calls', 1000), ('scaled_residual_calls_nonzero_column_means', 200),
+                     ('prec_checked_channel_scaled', 200), ('dataset_calls_int64', 100), ('dataset_calls_int32', 100),
+                     ('dataset_calls_float32', 100), ('scaled_calls', 1000), ('scaled_residual_calls_nonzero_column_means', 200),
                      ('single_condition_dataset_calls_measurements', 100),
                      ('single_condition_dataset_calls_unbalanced', 100),
                      ('one_repetition_dataset_calls_measurements', 50),
